@@ -1,6 +1,7 @@
 package ajson
 
 import (
+	"math"
 	"strconv"
 )
 
@@ -24,6 +25,9 @@ func Marshal(node *Node) (result []byte, err error) {
 			nValue, err = node.GetNumeric()
 			if err != nil {
 				return nil, err
+			}
+			if math.IsNaN(nValue) || math.IsInf(nValue, 0) {
+				return nil, errorRequest("unsupported numeric value %v", nValue)
 			}
 			result = append(result, strconv.FormatFloat(nValue, 'g', -1, 64)...)
 		case String:
